@@ -627,10 +627,15 @@ def c10_hermtoep(ctx, case):
     ctx.cls("T complex" if cplx else "T real", "z " + gen.describe(case["z"]), "fam=" + case["fam"], _bucket(p), _cbucket(c),
             "form=" + case["form"])
     ctx.nontrivial(p >= 2 and bool(np.any(r[1:] != 0)) and bool(np.any(z != 0)))
+    z0, lag0 = z.copy(), np.array(r[1:], copy=True)
     if case["form"] == "list":
         X = HERMTOEP(float(r[0].real), r[1:].tolist(), z.tolist())
     else:
-        X = HERMTOEP(float(r[0].real), r[1:], z)
+        lag_arg = np.array(r[1:], copy=True)
+        X = HERMTOEP(float(r[0].real), lag_arg, z)
+        # (the residual below is taken against the system as it was handed over)
+        ctx.check(np.array_equal(z, z0) and np.array_equal(lag_arg, lag0), "HERMTOEP modified its arguments", sig={"clause": "arguments"})
+    z = z0
     _resid_ok(ctx, T, X, z.astype(complex), c, "HERMTOEP")
     if case["form"] != "list" and p >= 1:
         # the caller re-uses its lag array for a second system: same array object, new lags written in place
@@ -783,7 +788,11 @@ def _toeplitz_body(ctx, case):
         lc = tc.tolist()
         X = TOEPLITZ(t0, lc, lc if case.get("same_obj") else tr.tolist(), z.tolist())
     else:
+        z0, tc0, tr0 = z.copy(), tc.copy(), tr.copy()
         X = TOEPLITZ(t0, tc, tr, z)
+        ctx.check(np.array_equal(z, z0) and np.array_equal(tc, tc0) and np.array_equal(tr, tr0), "TOEPLITZ modified its arguments",
+                  sig={"clause": "arguments"})
+        z = z0
     _resid_ok(ctx, T, X, z.astype(complex), c, "TOEPLITZ")
 
 
@@ -855,10 +864,14 @@ def c10_cholesky(ctx, case):
             "n=1" if n == 1 else ("n=2-4" if n <= 4 else "n>=5"), _cbucket(c),
             "rhs vector" if K is None else ("rhs n x n" if K == n else "rhs n x %d" % K))
     ctx.nontrivial(n >= 2 and bool(np.any(b != 0)))
+    A0, b0 = np.array(A, copy=True), np.array(b, copy=True)
     if case["method"] == "default":
         X = spectrum.CHOLESKY(A, b)
     else:
         X = spectrum.CHOLESKY(A, b, case["method"])
+    # (a back end that factorises in place would make the residual below meaningless: it is taken against the copies)
+    ctx.check(np.array_equal(A, A0) and np.array_equal(b, b0), "CHOLESKY(%s) modified its arguments" % case["method"], sig={"clause": "arguments"})
+    A, b = A0, b0
     _resid_ok(ctx, A.astype(complex), np.asarray(X), b.astype(complex), c, "CHOLESKY(%s)" % case["method"])
 
 
